@@ -199,6 +199,11 @@ pub const LEAVES: &[Leaf] = &[
     leaf("fcompbad() { COMPREPLY=($((1/0))); }; compgen -F fcompbad x 2>/dev/null"),
     leaf("trap 'echo errh18' ERR; false; trap - ERR"),
     leaf("ftrapret() { trap 'echo reth18' RETURN; }; ftrapret; trap - RETURN"),
+    leaf("ftraperrret; trap - ERR"),
+    leaf("V=x ftraperrret; trap - ERR"),
+    leaf(". ./trapret.sh"),
+    leaf("fsrctrapret"),
+    leaf("pushd /nonexistent_dir_c18 2>/dev/null; pushd noexec.txt 2>/dev/null; dirs -c"),
 ];
 
 const SETUP: &str = "readonly RO=1\n\
@@ -227,6 +232,8 @@ fps() { simcat < <(nosuchcmd_c18); }\n\
 fretbad() { return abc; }\n\
 fsrcbad() { . ./missing.sh; }\n\
 flocalarr() { local -a la=(1 2); local -A lm=([k]=v); la[1/0]=x; }\n\
+ftraperrret() { trap 'return 9' ERR; false; echo after18; }\n\
+fsrctrapret() { . ./trapret.sh; }\n\
 frecfail() { local d=$1; if [ $d -gt 0 ]; then frecfail $((d-1)) > /dev/null; else nosuchcmd_c18 > /nonexistent_dir_c18/x; fi; }\n";
 
 pub fn render(case: &Case) -> String {
@@ -401,6 +408,7 @@ pub fn judge(case: &Case) -> Verdict {
         ("good.sh".to_string(), "gv=1\n".to_string()),
         ("noexec.txt".to_string(), "not a program\n".to_string()),
         ("ret.sh".to_string(), "local insrc=1\nreturn 4\necho unreachable\n".to_string()),
+        ("trapret.sh".to_string(), "trap 'return 7' ERR\nfalse\necho aftersrc18\ntrap - ERR\n".to_string()),
         ("decl.sh".to_string(), "declare -a acc18\nacc18+=(x)\nlocal cnt18=1\ndeclare -i n18\nn18+=1\necho \"decl ${#acc18[@]} $n18 $cnt18\"\n".to_string()),
     ];
     let has_coproc = case.seq.iter().any(|i| LEAVES[*i % LEAVES.len()].coproc);
